@@ -35,9 +35,16 @@ impl Strat {
     }
 }
 
+/// Spans of the region (offset, length) that the checker overwrites with 0xff bytes: words that read as -1,
+/// the value the word-by-word strategy's system call also uses to signal an error.
+const FF_SPANS: [(u64, u64); 4] = [(8, 24), (5 * PAGE + 1000 + 13, 40), (PAGES * PAGE - 48, 16), (PAGES * PAGE - 16, 16)];
+
 fn true_byte(region: u64, tail_protnone: bool, a: u64) -> Option<u8> {
     let end = region + PAGES * PAGE;
     if a >= region && a < end {
+        if FF_SPANS.iter().any(|(o, l)| a >= region + o && a < region + o + l) {
+            return Some(0xff);
+        }
         Some(pattern_byte(a))
     } else if (tail_protnone && a >= end && a < end + PAGE) || (a >= region - PAGE && a < region) {
         Some(0) // the PROT_NONE pages (guard page in front of every region; the tail page) were never written: their true content is zero
@@ -117,6 +124,9 @@ fn lens(thorough: bool) -> Vec<usize> {
 fn run_chunk(c: &Chunk) -> (u64, u64, Vec<(String, String, Value)>, Option<Value>, std::collections::BTreeSet<u64>) {
     let mut p = Puppet::spawn();
     let region = p.pattern(PAGES as usize, if c.protnone { "protnone" } else { "hole" }, "rw");
+    for (o, l) in FF_SPANS {
+        p.write(region + o, &vec![0xffu8; l as usize]);
+    }
     p.quiesce();
     let pid = p.pid;
     // the ptrace strategy needs an attached, stopped tracee; the other two work either way
@@ -195,6 +205,9 @@ pub fn run(ctx: &Ctx, rep: &mut Report) {
         let protnone = case["protnone"].as_bool().unwrap_or(false);
         let mut p = Puppet::spawn();
         let region = p.pattern(PAGES as usize, if protnone { "protnone" } else { "hole" }, "rw");
+        for (o, l) in FF_SPANS {
+            p.write(region + o, &vec![0xffu8; l as usize]);
+        }
         p.quiesce();
         let s = STRATS.iter().copied().find(|s| Some(s.name()) == case["strategy"].as_str()).unwrap_or(Strat::Vmem);
         let attached = unsafe {
